@@ -295,6 +295,41 @@ func nest(kind string, depth int) val {
 	return v
 }
 
+// nestOver wraps core in depth containers of the given kind.
+func nestOver(kind string, depth int, core val) val {
+	v := core
+	for d := 0; d < depth; d++ {
+		k := kind
+		if kind == "mix" {
+			k = []string{"vec", "map", "list"}[d%3]
+		}
+		switch k {
+		case "vec":
+			v = vVec(v)
+		case "list":
+			v = vList(v)
+		case "map":
+			v = vMap([]mkey{keyStr("k")}, []val{v})
+		}
+	}
+	return v
+}
+
+// repeatCores: small acyclic values in which the SAME scalar (or an equal
+// empty container) occurs more than once -- what an identity-keyed "already
+// on the path" set must not mistake for a cycle (true, false and nil are
+// shared objects in the interpreter; small ints and strings may be).
+func repeatCores() []val {
+	ab := []mkey{keyStr("a"), keyStr("b")}
+	return []val{
+		vVec(vBool(true), vBool(true)), vVec(vBool(false), vBool(false)), vVec(vNil(), vNil()),
+		vVec(vInt(1), vInt(1)), vVec(vStr("a"), vStr("a")), vVec(vFloat(0.5), vFloat(0.5)),
+		vMap(ab, []val{vBool(true), vBool(true)}), vMap(ab, []val{vBool(false), vNil()}),
+		vVec(vVec(), vVec()), vVec(vBool(true), vVec(vBool(true))), vList(vBool(true), vBool(false), vBool(true)),
+		vVec(vMap(nil, nil), vMap(nil, nil)),
+	}
+}
+
 // wide builds a container with n members; map names are inserted in
 // descending numeric order ("k10" sorts before "k2").
 func wide(kind string, n int) val {
